@@ -121,6 +121,7 @@ fn class_weights(mode: Prop, kind: Kind, mbuff_len: usize) -> Vec<(Class, u32)> 
             w.push((Class::LongAlu, 1));
             w.push((Class::FailInCallee, 1));
             w.push((Class::PeekOtherProgram, 2));
+            w.push((Class::StackFill, 1));
             w.push((Class::Mixed, 5));
             if kind != Kind::Fixed {
                 // on the fixed-metadata VM r1 is the VM's private buffer: not comparable across VMs
@@ -153,6 +154,7 @@ fn class_weights(mode: Prop, kind: Kind, mbuff_len: usize) -> Vec<(Class, u32)> 
             w.push((Class::Helper, 1));
             w.push((Class::HarmlessInvalid, 1));
             w.push((Class::ProbeStack, 3));
+            w.push((Class::StackFill, 2));
             w.push((Class::StackPlain, 1));
             w.push((Class::Mixed, 1));
             if kind == Kind::Fixed {
@@ -315,6 +317,7 @@ pub fn generate(rng: &mut Rng, mode: Prop) -> Scenario {
                     Some(k) => gen_meta_read(tag, d, e, k, if rng.chance(1, 2) { Some(rng.range(1, 255) as u8) } else { None }),
                 }
             }
+            Class::StackFill => gen_stack_fill(rng, tag, kind.has_packet()),
             Class::PeekOtherProgram => gen_peek_other_program(tag, rng.below(i as u64) as usize), // an earlier pool entry
             Class::Mixed => gen_mixed(rng, tag, kind, p0len, mbuff_len),
             Class::LongAlu => gen_long_alu(rng, tag),
@@ -336,6 +339,19 @@ pub fn generate(rng: &mut Rng, mode: Prop) -> Scenario {
         let dst = rng.below(npool as u64) as usize;
         if src != dst && dst != 0 {
             progs[dst] = progs[src].clone();
+        }
+    }
+
+    // a packet that ends exactly where a packet probe's load ends (a prefix view of the first packet)
+    let mut packets = packets;
+    let mut prefix_of = prefix_of;
+    if kind.has_packet() {
+        let ends: Vec<usize> = progs.iter().filter(|p| matches!(p.class, Class::ProbePktAbs | Class::ProbePktInd)).map(|p| p.min_pkt).filter(|e| *e <= packets[0].len()).collect();
+        for e in ends.into_iter().take(2) {
+            if rng.chance(1, 2) {
+                packets.push(packets[0][..e].to_vec());
+                prefix_of.push(Some(0));
+            }
         }
     }
 
